@@ -137,6 +137,13 @@ def construct {V} (S : Sem V) : Cls → Kw V → Key → V
     fun k => if k = .color_space then S.up ((kw .color_space).getD S.rgb) else a k
   | _, kw => constructBase S kw
 
+/-- the keywords a subclass constructor overrides (in `construct`: `Kw.set`); in the code they are `kwargs.pop`ped and
+replaced before delegating to `Image.__init__` -/
+def forcedKeys : Cls → List Key
+  | .scalarImage => [.scalar]
+  | .opticalImage => [.space_dim, .indexing, .scalar]
+  | _ => []
+
 /-- `metadata()`: the attributes under the keys of the class (key list: generated) -/
 def metadataOf {V} (keys : Cls → List Key) (c : Cls) (a : Key → V) : Kw V :=
   fun k => if k ∈ keys c then some (a k) else Option.none
@@ -165,5 +172,112 @@ structure Sem.OK {V} (S : Sem V) : Prop where
   truthy_fls : S.truthy S.fls = false
   up_idem : ∀ v, S.up (S.up v) = S.up v
   hwd_none : ∀ d, S.applyHWD d Option.none Option.none Option.none = d
+
+end Darsia.Persist
+
+namespace Darsia.Persist
+
+/-! ### the savable corrections: state, `save`, `load` (incl. `_init_from_config`), on abstract values
+
+`V` = values (arrays, numbers, strings, slices, …); np.savez / pickle are taken to return each stored value
+unchanged (external contract). For each class: the attributes `correct_array` depends on, what `save` writes and
+from which attribute, how `load` rebuilds the state (the generic reader first runs the constructor without
+arguments, then `load`). Memoisation caches (CurvatureCorrection.cache / use_cache / cache_path: the sampling grid,
+a function of `config` and the image shape) are not part of the output-relevant state. -/
+
+structure CSem (V : Type) where
+  tru : V
+  zero : V
+  one : V
+  fls : V
+  affine : V
+  darsia : V
+  /-- `isinstance(roi, tuple)` -/
+  isTuple : V → Bool
+  /-- `darsia.bounding_box(np.array(roi), padding=…, max_size=base.shape[:2])` -/
+  bbox : V → V → V → V
+  /-- `darsia.make_voxel(roi)` -/
+  makeVoxel : V → V
+
+/-! TypeCorrection -/
+structure TypeState (V : Type) where
+  dataType : V
+structure TypeFile (V : Type) where
+  data_type : V
+def TypeState.save {V} (s : TypeState V) : TypeFile V := ⟨s.dataType⟩
+def TypeFile.load {V} (f : TypeFile V) : TypeState V := ⟨f.data_type⟩
+
+/-! DriftCorrection: `save` writes `base` and `return_config()` = {active, padding, roi}; `load` reads `base` and runs
+`_init_from_config(config)` (roi: kept if it is a tuple of slices, else its bounding box) -/
+structure DriftState (V : Type) where
+  base : V
+  active : V
+  padding : V
+  roi : Option V
+structure DriftFile (V : Type) where
+  base : V
+  cfgActive : Option V
+  cfgPadding : Option V
+  cfgRoi : Option V
+def DriftState.save {V} (s : DriftState V) : DriftFile V := ⟨s.base, some s.active, some s.padding, s.roi⟩
+def DriftFile.load {V} (S : CSem V) (f : DriftFile V) : DriftState V :=
+  let padding := f.cfgPadding.getD S.zero
+  { base := f.base, active := f.cfgActive.getD S.tru, padding := padding,
+    roi := f.cfgRoi.map fun r => if S.isTuple r then r else S.bbox r padding f.base }
+/-- after `_init_from_config` the ROI is `None` or a tuple of slices -/
+def DriftState.Inv {V} (S : CSem V) (s : DriftState V) : Prop := ∀ r, s.roi = some r → S.isTuple r = true
+
+/-! CurvatureCorrection (fixed code): `config`, the memoised grid and the interpolation order -/
+structure CurvState (V : Type) where
+  config : V
+  interpolationOrder : V
+structure CurvFile (V : Type) where
+  config : V
+  interpolation_order : Option V
+def CurvState.save {V} (s : CurvState V) : CurvFile V := ⟨s.config, some s.interpolationOrder⟩
+/-- `read_correction` constructs `CurvatureCorrection()` (interpolation order 1), then `load` -/
+def CurvFile.load {V} (S : CSem V) (f : CurvFile V) : CurvState V :=
+  { config := f.config, interpolationOrder := f.interpolation_order.getD S.one }
+/-- the code before the fix did not store the interpolation order -/
+def CurvState.saveBefore {V} (s : CurvState V) : CurvFile V := ⟨s.config, none⟩
+
+/-! IlluminationCorrection: `config = {colorspace, local_scaling}` -/
+structure IllumState (V : Type) where
+  colorspace : V
+  localScaling : V
+structure IllumFile (V : Type) where
+  cfgColorspace : V
+  cfgLocalScaling : V
+def IllumState.save {V} (s : IllumState V) : IllumFile V := ⟨s.colorspace, s.localScaling⟩
+def IllumFile.load {V} (f : IllumFile V) : IllumState V := ⟨f.cfgColorspace, f.cfgLocalScaling⟩
+
+/-! ColorCorrection: `save` writes the reference swatches of the colour checker and `config`; `load` builds a
+`CustomColorChecker(reference_colors=base)` and runs `_init_from_config`, which derives every other attribute -/
+structure ColorCfg (V : Type) where
+  roi : V
+  active : Option V
+  whitebalancing : Option V
+  colorbalancing : Option V
+  balancing : Option V
+  clip : Option V
+structure ColorState (V : Type) where
+  config : ColorCfg V
+  swatches : V
+  active : V
+  whitebalancing : V
+  colorbalancing : V
+  balancing : V
+  clip : V
+  roi : V
+structure ColorFile (V : Type) where
+  base : V
+  config : ColorCfg V
+/-- `_init_from_config` -/
+def ColorState.ofConfig {V} (S : CSem V) (cfg : ColorCfg V) (swatches : V) : ColorState V :=
+  { config := cfg, swatches := swatches, active := cfg.active.getD S.tru, whitebalancing := cfg.whitebalancing.getD S.tru,
+    colorbalancing := cfg.colorbalancing.getD S.affine, balancing := cfg.balancing.getD S.darsia,
+    clip := cfg.clip.getD S.fls, roi := S.makeVoxel cfg.roi }
+def ColorState.save {V} (s : ColorState V) : ColorFile V := ⟨s.swatches, s.config⟩
+def ColorFile.load {V} (S : CSem V) (f : ColorFile V) : ColorState V := ColorState.ofConfig S f.config f.base
 
 end Darsia.Persist
